@@ -82,6 +82,13 @@ def case_of_case(t):
             return case_of_case(_on_option(a[0], lambda x: _app(a[1], x), ("lit", True)))
         if n == "Option::map_or" and len(a) == 3:
             return case_of_case(_on_option(a[0], lambda x: _app(a[2], x), a[1]))
+        lit_opt = bool(a) and isinstance(a[0], tuple) and (a[0][:2] in (("ctor", "Option::Some"), ("ctor", "Option::None")) or _is_cond(a[0]))
+        if n == "Option::map" and len(a) == 2 and lit_opt:
+            return case_of_case(_on_option(a[0], lambda x: ("ctor", "Option::Some", (("0", _app(a[1], x)),)), ("ctor", "Option::None", ())))
+        if n == "Option::unwrap_or" and len(a) == 2 and lit_opt:
+            return case_of_case(_on_option(a[0], lambda x: x, a[1]))
+        if n == "Option::unwrap_or_else" and len(a) == 2 and lit_opt and isinstance(a[1], tuple) and a[1][:1] == ("closure",) and not a[1][1]:
+            return case_of_case(_on_option(a[0], lambda x: x, a[1][2]))
         if n == "Option::is_some" and len(a) == 1 and _is_cond(a[0]):
             return case_of_case(_on_option(a[0], lambda x: ("lit", True), ("lit", False)))
         if n == "Option::is_none" and len(a) == 1 and _is_cond(a[0]):
